@@ -326,9 +326,12 @@ func runCheck(o *checkOpts, spec *CheckSpec, doSelftest bool) int {
 					continue
 				}
 				rep := &violationReport{unit: ur.unit, v: v, path: p}
-				if v.Kind == "unsafe" || v.Kind == "race" || v.Kind == "linearizability" || v.Job.mapOrder == "engine-only" {
+				if v.Kind == "unsafe" || v.Kind == "race" || v.Kind == "deadlock" && v.Threads || v.Threads {
 					rep.engineOnly, rep.confirm = true, true
-					rep.native = "engine-confirmed only (not reproducible natively by construction)"
+					rep.native = "engine-confirmed only: the counterexample is a goroutine schedule / happens-before fact that cannot be forced natively (the engine's replay of the recorded decisions is deterministic)"
+					if v.Kind == "unsafe" {
+						rep.native = "engine-confirmed only: an access outside the slice that lands inside its backing array is invisible to a native run"
+					}
 				} else {
 					to := 60 * time.Second
 					if v.Kind == "unwind" {
